@@ -356,7 +356,7 @@ Proof. unfold cut_fragments. nof_auto. Qed.
 
 Lemma cut_remaining_overhangs_nof c b : nof (cut_remaining_overhangs c b).
 Proof. unfold cut_remaining_overhangs. nof_auto. Qed.
-Lemma add_missing_one_nof dg found acc isc : nof (add_missing_one dg found acc isc).
+Lemma add_missing_one_nof c dg found acc isc : nof (add_missing_one c dg found acc isc).
 Proof. unfold add_missing_one. nof_auto. Qed.
 #[export] Hint Resolve cut_remaining_overhangs_nof add_missing_one_nof : nof.
 
